@@ -442,8 +442,14 @@ static HeapStats walk_heap(sexp ctx, int phase, bool check_refs) {
         if (sexp_markedp(x)) st.marked_bytes += sz;
       } else {
         if (sexp_markedp(x)) {
-          snprintf(msg, sizeof msg, "object +%zu tag %lu still marked after sweep", (size_t)(p - h->data), (unsigned long)tag);
-          W.violate("heap:markbit", msg);
+          if (phase == 0) {
+            // (the mark bit doubles as a visited flag in the reader's datum-label pass: whatever borrows it must clear it again)
+            snprintf(msg, sizeof msg, "object +%zu tag %lu already carries a mark bit when a collection starts: it will be taken for traced", (size_t)(p - h->data), (unsigned long)tag);
+            W.violate("heap:stale-mark-bit", msg);
+          } else {
+            snprintf(msg, sizeof msg, "object +%zu tag %lu still marked after sweep", (size_t)(p - h->data), (unsigned long)tag);
+            W.violate("heap:markbit", msg);
+          }
           return st;
         }
         sv.push_back(p);
@@ -599,6 +605,11 @@ static void hook_done(sexp ctx, void* res, size_t req, size_t size) {
 static void hook_gc(sexp ctx, int phase) {
   if (phase == 0) {
     W.in_gc = true;
+    if (W.ctx && sexp_context_heap(ctx) == sexp_context_heap(W.ctx) && W.gc_armed && W.heapcheck_every && (W.gc_count % W.heapcheck_every) == 0) {
+      W.in_hook = true;
+      walk_heap(ctx, 0, false);
+      W.in_hook = false;
+    }
     return;
   }
   bool mine = W.ctx && sexp_context_heap(ctx) == sexp_context_heap(W.ctx);
